@@ -1,4 +1,5 @@
 import WtfModel.Props.C07b
+import WtfModel.Props.C07c
 #print axioms Wtf.C07.no_override
 #print axioms Wtf.C07.fallback_only_when_nothing
 #print axioms Wtf.C07.accepts_iff_subseq
@@ -13,3 +14,11 @@ import WtfModel.Props.C07b
 #print axioms Wtf.C07.empty_query_no_fallback
 #print axioms Wtf.C07.normMono
 #print axioms Wtf.C07.best_first_reported
+#print axioms Wtf.C07.sortOK_of_goStable
+#print axioms Wtf.C07.sortOK_modelledTuning
+#print axioms Wtf.C07.genuine_sorted
+#print axioms Wtf.C07.best_first_sorted
+#print axioms Wtf.C07.best_first_reported_sorted
+#print axioms Wtf.C07.complete_sorted
+#print axioms Wtf.C07.fallback_tie_order
+#print axioms Wtf.C07.fuzzy_sort_closed_form
